@@ -258,6 +258,12 @@ def panic_rewrites(fn, src_text):
     return out
 
 
+def RM_(sym, name):
+    """ghost block after a `context.new_binding(..)` statement: the scopes changed exactly when the binding succeeded"""
+    return ('proof { if %s is Ok { assert(context.scopes().last().contains_key(%s)); assert(!old(context).scopes().last().contains_key(%s)); } '
+            'assert((context.scopes() == old(context).scopes()) <==> %s is Err); }' % (sym, name, name, sym))
+
+
 def build():
     U = Unit('SEMA', props=P)
     U.tag_loops = True     # loop invariants state property-relevant facts about abstractions: a failing one is reported
@@ -471,7 +477,9 @@ pub assume_specification<T: Clone, EE: Clone> [<Result<T, EE> as Clone>::clone] 
 ensures grows(*old(context), *final(context)),
     stmt_kind_ok(stmt, r),                                                                  //@C06,C03:statement-kind
     // unsupported statement kinds are reported, not dropped silently
-    unsupported_stmt(stmt) ==> final(context).errs() == old(context).errs().push(SemanticErrorKind::NotImplementedError),     //@C03:unsupported-statement-reported''')
+    unsupported_stmt(stmt) ==> final(context).errs() == old(context).errs().push(SemanticErrorKind::NotImplementedError),     //@C03:unsupported-statement-reported
+    // a declaration that bound nothing (a redeclaration) is marked as such in the graph, and only then
+    (r is Some && declared_symbol(r->Some_0) is Some) ==> ((final(context).scopes() == old(context).scopes()) <==> declared_symbol(r->Some_0)->Some_0 is Err),     //@C07:redeclaration-marked-in-the-graph''')
     zov['expr_stmt_to_asg_stmt'].update(ret='r', props=['C03', 'C06', 'C07', 'C13'], loops={1: ITER_NB('oq3_it1', '''
     oq3_v1@.len() + oq3_it1.rest().len() == mod_gate_call.sp_modifiers().len(),
     oq3_it1.rest() =~= mod_gate_call.sp_modifiers().skip(oq3_v1@.len() as int),
@@ -500,6 +508,11 @@ ensures grows(*old(context), *final(context)),
         ('let params = bind_typed_parameter_list(', 'before', 'proof { assert(context.errs() == old(context).errs() + cond1(!old(context).global(), SemanticErrorKind::NotInGlobalScopeError)); }     //@C13:subroutine-definition-outside-global-scope'),
         ('            let duration =\n                expr_to_asg_texpr(delay_stmt.designator().unwrap().expr(), context).unwrap();', 'after', 'let ghost midd = *context;'),
         ('            Some(asg::Stmt::Delay(asg::DelayStmt::new(', 'before', 'proof { assert(context.errs() == midd.errs() + cond1(!(duration.ty is Duration), SemanticErrorKind::IncompatibleTypesError)); }     //@C13:non-duration-delay-reported'),
+        # ---- C07: a declaration that bound nothing is marked in the graph
+        ('context.new_binding(name_str.as_ref(), &typ, &q_decl);', 'after', RM_('symbol_id', 'name_str@')),
+        ('Some(asg::GateDefinition::new(gate_name_symbol_id, params, qubits, block).to_stmt())', 'before', RM_('gate_name_symbol_id', 'gate.sp_name()->Some_0.sp_string()')),
+        ('Some(\n                asg::DefStmt::new(def_name_symbol_id, params.unwrap(), block, return_type)', 'before', RM_('def_name_symbol_id', 'def_stmt.sp_name()->Some_0.sp_string()')),
+        ('context.new_binding(name_str.as_ref(), rhs.get_type(), &alias_stmt);', 'after', RM_('symbol_id', 'name_str@')),
         # ---- C09: the declared symbol carries exactly the declared type
         ('Some(asg::GateDefinition::new(gate_name_symbol_id, params, qubits, block).to_stmt())', 'before', '''proof {
     let b = context.trace().last();
@@ -623,13 +636,15 @@ ensures
     zov.setdefault('declare_classical_helper', {}).update(dict(ret='r', props=['C08', 'C03'], spec='''
 ensures
     r == asg::Stmt::DeclareClassical(Box::new(asg::DeclareClassical { name: symbol_id, initializer })),
-    final(context).errs() == old(context).errs(), final(context).trace() == old(context).trace(),
+    final(context).errs() == old(context).errs(), final(context).trace() == old(context).trace(), final(context).symbol_table == old(context).symbol_table,
 '''))
     zov.setdefault('can_cast_literal', {}).update(dict(ret='r', props=['C08'], rewrites=[('D23', 'matches!(lhs_type, &Type::UInt(..))', 'matches!(*lhs_type, Type::UInt(..))')], spec='ensures (r && !(*lhs_type is UInt && literal is Int)) ==> !types::must_diagnose(*lhs_type, *init_type),      //@C08:no-literal-cast-for-kind-lowering'))
     KL_ = 'proof { assert(types::must_diagnose(lhs_type, it0) ==> type_diag_last(context.errs())); }     //@C08:kind-lowering-always-diagnosed'
     zov.setdefault('classical_declaration_statement_to_asg_stmt', {})['ghost'] = [
         # C08: a conversion that lowers the kind (float -> int, complex -> real, anything to or from bit / bool / duration /
         # angle of another kind) is diagnosed on every path: never stored silently, not even behind a cast
+        ('let initializer = expr_to_asg_texpr(type_decl.expr(), context);', 'after', 'let ghost sc_b = context.scopes(); proof { assert(sc_b == old(context).scopes()); }'),
+        ('context.new_binding(name_str.as_ref(), &lhs_type, type_decl);', 'after', 'proof { if symbol_id is Ok { assert(context.scopes().last().contains_key(name_str@)); assert(!sc_b.last().contains_key(name_str@)); assert(context.scopes() != sc_b); } else { assert(context.scopes() == sc_b); } }'),
         ('        let init_type = initializer.get_type();', 'after', 'let ghost it0 = initializer.ty;'),
         ('            return asg::DeclareClassical::new(symbol_id, Some(initializer)).to_stmt();', 'before', KL_),
         # (uint <- integer literal is decided by the sign alone; that an integer literal expression is typed int is not an invariant of TExpr)
@@ -644,6 +659,8 @@ ensures
     // last symbol-table event of the statement (the initializer cannot see the new name)
     final(context).trace().len() > 0 && final(context).trace().last() is Bind,                                  //@C07:initializer-analysed-before-binding
     r is DeclareClassical,
+    // a redeclaration (nothing was bound) is marked as such in the graph: the declared symbol is Err exactly then
+    (final(context).scopes() == old(context).scopes()) <==> r->DeclareClassical_0.name is Err,                  //@C07:redeclaration-marked-in-the-graph
     // declaration rule: the stored value has the declared type up to const, or is an explicit cast
     // to exactly the declared type, or a type diagnostic was reported
     r->DeclareClassical_0.initializer is Some ==>
@@ -681,7 +698,9 @@ ensures
     zov.setdefault('literal_to_asg_texpr', {}).update(dict(ret='res', spec='ensures res is Some,'))
     zov.setdefault('paren_expr_to_asg_texpr', {}).update(dict(ret='res', spec='ensures res is Some, grows(*old(context), *final(context)),'))
     zov.setdefault('io_declaration_statement_to_asg_stmt', {}).update(dict(ret='r', props=['C06', 'C09', 'C03'], spec='''ensures grows(*old(context), *final(context)),
-    if type_decl.sp_input_token() is Some { r is InputDeclaration } else { r is OutputDeclaration },          //@C06:statement-kind'''))
+    if type_decl.sp_input_token() is Some { r is InputDeclaration } else { r is OutputDeclaration },          //@C06:statement-kind
+    (final(context).scopes() == old(context).scopes()) <==> declared_symbol(r)->Some_0 is Err,                   //@C07:redeclaration-marked-in-the-graph''',
+        ghost=[('context.new_binding(name_str.as_ref(), &typ, &type_decl.name().unwrap());', 'after', RM_('symbol_id', 'name_str@'))]))
     zov['syntax_to_semantic'] = dict(ret='r', props=['C03', 'C06', 'C07', 'C11'], for_iter=['statements'], destruct=True, string_eq=['file_path'],
         spec='''requires
     context.wf(), context.global(),
